@@ -308,7 +308,7 @@ func TestC19Wrappers(t *testing.T) {
 	}
 	cfgs := stacks()
 	a1, a2, a3 := alphabet(1), alphabet(2), alphabetPrepop()
-	rep.Bound = fmt.Sprintf("%d stack configurations (every ordering of every non-empty subset of {in-memory LRU (size 1 and 2, default retention 3s), versioned, snappy} over the in-process backend, plus two clients with versions 1 and 11 sharing one backend, plus stacks whose backend was pre-populated by another process running the same stack — those one step deeper over a 12-operation alphabet); every operation sequence of length <= %d over %d operations (%d for the shared configuration): set/add/async/multi sets with values {x, y, 40 incompressible bytes, empty, 40 zero bytes} and TTL 0/1s/5s on keys {a, \"1@a\"}, get-multi, delete, clock advance 2/4/6 s", len(cfgs), depth, len(a1), len(a2))
+	rep.Bound = fmt.Sprintf("%d stack configurations (every ordering of every non-empty subset of {in-memory LRU (size 1 and 2, default retention 3s), versioned, snappy} over the in-process backend, plus two clients with versions 1 and 11 sharing one backend, plus stacks whose backend was pre-populated by another process running the same stack — those one step deeper over a 12-operation alphabet); every operation sequence of length <= %d (thorough: that depth for the stacks of an in-memory layer with at most one more wrapper, one less for the others) over %d operations (%d for the shared configuration): set/add/async/multi sets with values {x, y, 40 incompressible bytes, empty, 40 zero bytes} and TTL 0/1s/5s on keys {a, \"1@a\"}, get-multi, delete, clock advance 2/4/6 s", len(cfgs), depth, len(a1), len(a2))
 	rep.Rule = "each sequence replayed on a fresh real stack (virtual clock for the in-memory layer, Advance for the backend) against a map-with-expiry reference: a read returns only requested keys, only the most recently stored value of that client/version byte for byte, never after deletion, never beyond TTL (+ in-memory retention); Add fails iff the backend holds an unexpired entry; distinct_nontrivial = sequences with at least one cache hit"
 	deadline := ev.Deadline(8 * time.Minute)
 	type job struct {
@@ -335,6 +335,9 @@ func TestC19Wrappers(t *testing.T) {
 					if cfg.prepop {
 						alp = a3
 						depth++
+					}
+					if ev.Thorough() && !cfg.prepop && !(len(cfg.layers) <= 2 && !cfg.shared && strings.Contains(strings.Join(cfg.layers, ","), "lru")) {
+						depth-- // thorough: the extra step only where an in-memory layer with at most one more wrapper makes the history matter most
 					}
 					first := jb[1]
 					// all sequences starting with operation `first`
